@@ -92,7 +92,7 @@ def _ext_one(item):
         for k, d in enumerate(dirs):
             ctor = {"in": h.Input, "out": h.Output, "inout": h.Inout, "none": h.Port}[d]
             ports.append(ctor(name=f"p{k}", width=1 + (k % 2)))
-        e = h.ExternalModule(name="E", port_list=ports, paramtype=dict, domain="extdom", desc="an external module", spicetype=getattr(SpiceType, st))
+        e = h.ExternalModule(name="E", port_list=ports, paramtype=dict, domain=("" if pstyle == "ints" else "extdom"), desc="an external module", spicetype=getattr(SpiceType, st))
         params = {"none": {}, "ints": dict(a=1, b=-5), "mixed": dict(a=1, s="txt", f=1.5, p=3 * h.prefix.n, l=h.Literal("w*2")),
                   # floats with whole values stay floats; zero, False-like and large values
                   "wholefloats": dict(f2=2.0, fm=-2.0, f0=0.0, big=1e19, i0=0, e="")}[pstyle]
